@@ -21,7 +21,7 @@ from typing import Dict, FrozenSet, List, Optional, Set, Tuple
 from ..keval import KEval, Ref
 from ..poly import Poly, ZERO, ONE
 from ..forms import check_accumulate, canon_store, ref_store, short, expr_poly, src_poly as P_
-from .. import wire
+from .. import wire, paths
 from ..model import norm_text, AnchorMissing, FuncInfo, Project
 from ..controls import Control
 from ..mutate import in_func, in_module, chain
@@ -38,12 +38,25 @@ NONE = S_("None")
 
 # ---------------------------------------------------------------------------------------------------------------- helpers
 # ---------------------------------------------------------------------------------------------------------------- C05.solve
+def _kwargs_of(c: ast.Call, callee: Optional[FuncInfo]) -> Dict[str, ast.expr]:
+    """arguments of a call expression by parameter name (project calls are keywordised when the project is loaded; positional leftovers bind by the callee's parameter order)"""
+    out = {k.arg: k.value for k in c.keywords if k.arg is not None}
+    if callee is not None:
+        for prm, a in zip(callee.call_params, c.args):
+            out.setdefault(prm, a)
+    return out
+
+
+_SOLVES = ("np.linalg.solve", "numpy.linalg.solve", "scipy.linalg.solve", "linalg.solve")
+
+
 def rule_solve(ctx, p: Project):
+    """decided on the name-free path summaries (sa/paths.py): what is returned on every path, under which settings"""
     rule = "C05.solve"
     # unconstrained
     f = p.func(f"{UT}:reconstruction_positive_negative_from")
     tries = [n for n in f.node.body if isinstance(n, ast.Try)]
-    solves = [c for c in f.calls() if norm_text(c.func) in ("np.linalg.solve", "numpy.linalg.solve", "scipy.linalg.solve", "linalg.solve")]
+    solves = [c for c in f.calls() if norm_text(c.func) in _SOLVES]
     ok = len(solves) == 1 and len(solves[0].args) == 2 and [norm_text(a) for a in solves[0].args] == ["curvature_reg_matrix", "data_vector"]
     ctx.ob(rule, f.key + ":solve(A, b)", ok, where=f, node=solves[0] if solves else f.node, construct=norm_text(solves[0])[:90] if solves else "no solve",
            message="the unconstrained reconstruction must be solve(curvature_reg_matrix, data_vector), matrix first")
@@ -55,44 +68,42 @@ def rule_solve(ctx, p: Project):
         ok = inside and len(hs) == 1 and any(isinstance(x, ast.Raise) and x.exc is not None and "InversionException" in norm_text(x.exc) for x in hs[0].body)
     ctx.ob(rule, f.key + ":error discipline", ok, where=f, node=tries[0] if tries else f.node, construct="try: solve ... except LinAlgError: raise InversionException",
            message="a singular / non-positive-definite system must surface as InversionException")
-    rets = wire.returns_of(f)
-    asg = [n for n in f.body_nodes() if isinstance(n, ast.Assign) and any(isinstance(t, ast.Name) and t.id == "reconstruction" for t in n.targets)]
-    ok = len(rets) == 1 and norm_text(rets[0].value) == "reconstruction" and len(asg) == 1 and solves and asg[0].value is solves[0]
-    ctx.ob(rule, f.key + ":returns the solution", ok, where=f, node=rets[0] if rets else f.node, construct=f"{len(asg)} assignment(s) to reconstruction",
-           message="the value returned must be the solution of the solve, unmodified")
+    PS = paths.path_summaries(f)
+    rets = paths.returns(PS) if PS is not None else []
+    bad = [q for q in rets if q.text not in {f"{s_}(curvature_reg_matrix,data_vector)" for s_ in _SOLVES}]
+    ctx.ob(rule, f.key + ":returns the solution", (bool(rets) and not bad) if PS is not None else None, where=f, node=(bad[0].node if bad else None) or f.node,
+           construct=f"{len(rets)} return path(s); " + (f"returns {bad[0].text[:90]}" if bad else "all return the solve"), message="the value returned must be the solution of the solve, unmodified")
     # positive only
     g = p.func(f"{UT}:reconstruction_positive_only_from")
+    fn = p.func(f"{FN}:fnnls_cholesky")
+    PS = paths.path_summaries(g)
+    rets = paths.returns(PS) if PS is not None else []
     calls = [c for c in g.calls() if norm_text(c.func) == "fnnls_cholesky"]
-    ok = len(calls) == 1
-    if ok:
-        c = calls[0]
-        a0 = norm_text(c.args[0]) if len(c.args) > 0 else wire.kwtext(c).get("ZTZ")
-        a1e = c.args[1] if len(c.args) > 1 else wire.kw(c).get("ZTx")
-        while a1e is not None and isinstance(a1e, ast.Attribute) and a1e.attr == "T":
-            a1e = a1e.value
-        a1 = norm_text(a1e) if a1e is not None else None
-        pi = wire.kwtext(c).get("P_initial") or (norm_text(c.args[2]) if len(c.args) > 2 else None)
-        ok = a0 == "curvature_reg_matrix" and a1 == "data_vector" and pi == "P_initial"
-    ctx.ob(rule, g.key + ":fnnls(ZTZ, ZTx, P_initial)", ok, where=g, node=calls[0] if calls else g.node, construct=norm_text(calls[0])[:100] if calls else "no call",
-           message="the non-negative solver must receive (curvature_reg_matrix, data_vector, P_initial=P_initial)")
-    pis = [n for n in g.body_nodes() if isinstance(n, ast.Assign) and isinstance(n.targets[0], ast.Name) and n.targets[0].id == "P_initial"]
-    vals = {}
-    for n in pis:
-        br = wire.enclosing_branches(g, n)
-        key = [(norm_text(i.test), t) for i, t in br if "positive_only_uses_p_initial" in norm_text(i.test)]
-        vals[key[0][1] if key else None] = n.value
-    warm, cold = vals.get(True), vals.get(False)
-    ok = warm is not None and cold is not None
-    if ok:
-        sol = None
-        if isinstance(warm, ast.Compare) and len(warm.ops) == 1:
-            if isinstance(warm.ops[0], ast.Gt) and norm_text(warm.comparators[0]) in ("0", "0.0"):
-                sol = warm.left
-            elif isinstance(warm.ops[0], ast.Lt) and norm_text(warm.left) in ("0", "0.0"):
-                sol = warm.comparators[0]
-        ok = isinstance(sol, ast.Call) and norm_text(sol.func).endswith("linalg.solve") and [norm_text(a) for a in sol.args] == ["curvature_reg_matrix", "data_vector"]
-        ok = ok and isinstance(cold, ast.Call) and norm_text(cold.func) in ("np.zeros", "numpy.zeros") and norm_text(cold.args[0]) == "0"
-    ctx.ob(rule, g.key + ":warm start", ok, where=g, node=pis[0] if pis else g.node, construct="; ".join(norm_text(n)[:70] for n in pis),
+    okc, okw, seen, det = bool(rets), bool(rets), set(), []
+    for q in rets:
+        v = q.value
+        if not (isinstance(v, ast.Call) and norm_text(v.func).split(".")[-1] == "fnnls_cholesky"):
+            okc = False
+            det.append(f"returns {q.text[:80]}")
+            continue
+        kw = _kwargs_of(v, fn)
+        ztx = kw.get("ZTx")
+        while isinstance(ztx, ast.Attribute) and ztx.attr == "T":
+            ztx = ztx.value
+        if not (paths.ptext(kw.get("ZTZ")) == "curvature_reg_matrix" and paths.ptext(ztx) == "data_vector" and set(kw) == {"ZTZ", "ZTx", "P_initial"}):
+            okc = False
+            det.append(q.text[:100])
+        flag = q.holds("settings.positive_only_uses_p_initial")
+        seen.add(flag)
+        pi = paths.ptext(kw.get("P_initial"))
+        warm = {f"0<{s_}(curvature_reg_matrix,data_vector)" for s_ in _SOLVES} | {f"0.0<{s_}(curvature_reg_matrix,data_vector)" for s_ in _SOLVES}
+        cold = {"np.zeros(0,dtype=int)", "numpy.zeros(0,dtype=int)", "np.array([],dtype=int)", "np.zeros(0,dtype='int')"}
+        if not ((flag is True and pi in warm) or (flag is False and pi in cold)):
+            okw = False
+            det.append(f"P_initial={pi[:70]} under positive_only_uses_p_initial={flag}")
+    ctx.ob(rule, g.key + ":fnnls(ZTZ, ZTx, P_initial)", okc if PS is not None else None, where=g, node=calls[0] if calls else g.node, construct="; ".join(det)[:160] or f"{len(rets)} return path(s)",
+           message="the non-negative solver must receive (curvature_reg_matrix, data_vector, P_initial=P_initial) and its result must be returned unmodified")
+    ctx.ob(rule, g.key + ":warm start", (okw and seen == {True, False}) if PS is not None else None, where=g, node=calls[0] if calls else g.node, construct="; ".join(det)[:160] or "warm / cold start by the setting",
            message="the warm start must be the positive set of the unconstrained solution of the same system (and empty when the setting is off)")
     tries = [n for n in ast.walk(g.node) if isinstance(n, ast.Try)]
     ok = False
@@ -106,96 +117,94 @@ def rule_solve(ctx, p: Project):
         ok = inside and {"RuntimeError", "LinAlgError", "ValueError"} <= caught and all(any(isinstance(x, ast.Raise) and "InversionException" in norm_text(x.exc or ast.Constant(0)) for x in h.body) for h in t.handlers)
     ctx.ob(rule, g.key + ":error discipline", ok, where=g, node=tries[0] if tries else g.node, construct="try: fnnls ... except (RuntimeError, LinAlgError, ValueError): raise InversionException",
            message="failure of the non-negative solver (iteration cap, singular factor) must surface as InversionException")
-    rets = wire.returns_of(g)
-    asg = [n for n in g.body_nodes() if isinstance(n, ast.Assign) and any(isinstance(t, ast.Name) and t.id == "reconstruction" for t in n.targets)]
-    ok = len(rets) == 1 and norm_text(rets[0].value) == "reconstruction" and len(asg) == 1 and calls and asg[0].value is calls[0]
-    ctx.ob(rule, g.key + ":returns the solution", ok, where=g, node=rets[0] if rets else g.node, construct=f"{len(asg)} assignment(s) to reconstruction",
-           message="the value returned must be the solver's result, unmodified")
     # dispatch
     r = p.func(f"{AB}.reconstruction")
-    pos = [c for c in r.calls() if norm_text(c.func).endswith("reconstruction_positive_only_from")]
-    neg = [c for c in r.calls() if norm_text(c.func).endswith("reconstruction_positive_negative_from")]
-    ctx.require_count(rule, "solver call sites in reconstruction", len(pos) + len(neg), 3)
-    for c in pos + neg:
-        br = wire.enclosing_branches(r, c)
-        flags = [(norm_text(i.test), t) for i, t in br]
-        want_pos = c in pos
-        in_pos = ("self.settings.use_positive_only_solver", True) in flags
-        # the unconstrained call follows the `if use_positive_only_solver:` block whose every path returns
-        if not want_pos:
-            blk = [n for n in r.node.body if isinstance(n, ast.If) and norm_text(n.test) == "self.settings.use_positive_only_solver"]
-            okd = len(blk) == 1 and not in_pos and _always_returns(blk[0].body) and blk[0].lineno < c.lineno
-        else:
-            okd = in_pos
-        ctx.ob(rule, f"dispatch:{norm_text(c.func).split('.')[-1]}@{len(flags)}", okd, where=r, node=c, construct=f"{norm_text(c.func).split('.')[-1]} under {flags}",
-               message="the solver must be chosen by settings.use_positive_only_solver alone")
-        kw = wire.kwtext(c)
-        full = kw.get("data_vector") == "self.data_vector" and kw.get("curvature_reg_matrix") == "self.curvature_reg_matrix"
-        reduced = kw.get("data_vector") == "data_vector_input" and kw.get("curvature_reg_matrix") == "curvature_reg_matrix_input"
-        oka = (full or reduced) and (not want_pos or kw.get("settings") == "self.settings")
-        ctx.ob(rule, f"arguments:{norm_text(c.func).split('.')[-1]}@{len(flags)}", oka, where=r, node=c, construct=str({k: kw.get(k) for k in ("data_vector", "curvature_reg_matrix", "settings")}),
-               message="the solver must be given the inversion's own data vector and curvature+regularization matrix (whole, or both reduced by the same selector) and settings")
+    PS = paths.path_summaries(r)
+    if PS is None:
+        ctx.ob(rule, "dispatch", None, message="too many paths through AbstractInversion.reconstruction")
+        return
+    rets = paths.returns(PS)
+    ctx.require_count(rule, "return paths of reconstruction", len(rets), 3)
+    seen = set()
+    for q in rets:
+        flag = q.holds("self.settings.use_positive_only_solver")
+        seen.add(flag)
+        pos = paths.calls_in(q.value, "reconstruction_positive_only_from")
+        neg = paths.calls_in(q.value, "reconstruction_positive_negative_from")
+        okd = (flag is True and len(pos) == 1 and not neg) or (flag is False and len(neg) == 1 and not pos and q.value is neg[0])
+        tag = "+".join(f"{c}={t}" for c, t in q.conds)[:90]
+        ctx.ob(rule, f"dispatch:{tag}", okd, where=r, node=q.node, construct=f"use_positive_only_solver={flag}: {q.text[:100]}", message="the solver must be chosen by settings.use_positive_only_solver alone")
+        for c in pos + neg:
+            kw = {k: paths.ptext(v) for k, v in paths.kwargs(c).items()}
+            full = kw.get("data_vector") == "self.data_vector" and kw.get("curvature_reg_matrix") == "self.curvature_reg_matrix"
+            sel = kw.get("data_vector", "")[len("self.data_vector["):-1] if kw.get("data_vector", "").startswith("self.data_vector[") else None
+            reduced = sel is not None and kw.get("curvature_reg_matrix") in _reduced_forms(sel)
+            oka = (full or reduced) and (c in neg or kw.get("settings") == "self.settings") and (c in pos or kw.get("mapper_param_range_list") == "self.param_range_list_from(cls=AbstractMapper)")
+            ctx.ob(rule, f"arguments:{tag}", oka, where=r, node=q.node, construct=str({k: kw.get(k, "")[:60] for k in ("data_vector", "curvature_reg_matrix", "settings")}),
+                   message="the solver must be given the inversion's own data vector and curvature+regularization matrix (whole, or both reduced by the same selector) and settings")
+    ctx.ob(rule, "dispatch: both solvers reachable", seen == {True, False}, where=r, node=r.node, construct=str(sorted(map(str, seen))), message="every path must be decided by settings.use_positive_only_solver")
 
 
-def _always_returns(body: List[ast.stmt]) -> bool:
-    if not body:
-        return False
-    last = body[-1]
-    if isinstance(last, (ast.Return, ast.Raise)):
-        return True
-    if isinstance(last, ast.If):
-        return _always_returns(last.body) and _always_returns(last.orelse)
-    return False
+def _reduced_forms(sel: str):
+    return (f"self.curvature_reg_matrix[{sel},:][:,{sel}]", f"self.curvature_reg_matrix[:,{sel}][{sel},:]", f"self.curvature_reg_matrix[np.ix_({sel},{sel})]", f"self.curvature_reg_matrix[{sel}][:,{sel}]")
 
 
 # ---------------------------------------------------------------------------------------------------------------- C05.reduce
 def rule_reduce(ctx, p: Project):
     rule = "C05.reduce"
     r = p.func(f"{AB}.reconstruction")
-    A = {}
-    for n in r.body_nodes():
-        if isinstance(n, ast.Assign) and len(n.targets) == 1:
-            t = n.targets[0]
-            A.setdefault(norm_text(t), []).append(n)
-    sel = "values_to_solve"
-
-    def one(name):
-        return A.get(name, [None])[0] if len(A.get(name, [])) == 1 else None
-    n_sel = one(sel)
-    size = "np.shape(self.curvature_reg_matrix)[0]"
-    ok = n_sel is not None and isinstance(n_sel.value, ast.Call) and norm_text(n_sel.value.func) in ("np.ones", "numpy.ones") and norm_text(n_sel.value.args[0]) in (size, "self.curvature_reg_matrix.shape[0]", "len(self.data_vector)") \
-         and wire.kwtext(n_sel.value).get("dtype") == "bool"
-    ctx.ob(rule, "selector starts all-True over every parameter", ok, where=r, node=n_sel or r.node, construct=norm_text(n_sel)[:100] if n_sel else "missing", message="the selector must start as all True with one entry per parameter")
-    st = one(f"{sel}[ids_zeros]")
-    ok = st is not None and norm_text(st.value) == "False"
-    ctx.ob(rule, "forced-zero indices cleared in the selector", ok, where=r, node=st or r.node, construct=norm_text(st) if st else "missing", message="exactly the forced-zero parameter indices must be cleared in the selector")
-    dv = one("data_vector_input")
-    ok = dv is not None and norm_text(dv.value) == f"self.data_vector[{sel}]"
-    ctx.ob(rule, "data vector reduced by the selector", ok, where=r, node=dv or r.node, construct=norm_text(dv)[:90] if dv else "missing", message="D must be reduced by the selector")
-    cm = one("curvature_reg_matrix_input")
-    ok = cm is not None and norm_text(cm.value).replace(" ", "") in (f"self.curvature_reg_matrix[{sel},:][:,{sel}]", f"self.curvature_reg_matrix[:,{sel}][{sel},:]", f"self.curvature_reg_matrix[np.ix_({sel},{sel})]",
-                                                                     f"self.curvature_reg_matrix[{sel}][:,{sel}]")
-    ctx.ob(rule, "matrix reduced on both axes by the selector", ok, where=r, node=cm or r.node, construct=norm_text(cm)[:110] if cm else "missing", message="F+H must be reduced on rows and columns by the same selector")
-    so = ([n for n in A.get("solutions", []) if isinstance(n.value, ast.Call) and norm_text(n.value.func) in ("np.zeros", "numpy.zeros")] or [None])[0]
-    sc = one(f"solutions[{sel}]")
-    ok = so is not None and isinstance(so.value, ast.Call) and norm_text(so.value.func) in ("np.zeros", "numpy.zeros") and norm_text(so.value.args[0]) in (size, "self.curvature_reg_matrix.shape[0]") \
-         and sc is not None and isinstance(sc.value, ast.Call) and norm_text(sc.value.func).endswith("reconstruction_positive_only_from")
-    ctx.ob(rule, "solution scattered back onto zeros through the selector", ok, where=r, node=sc or so or r.node, construct=(norm_text(so)[:60] + " ; " + norm_text(sc)[:60]) if so and sc else "missing",
-           message="the reduced solution must be written at the selected entries of an all-zero vector of full length")
-    if sc is not None:
-        br = [(norm_text(i.test), t) for i, t in wire.enclosing_branches(r, sc)]
-        ok = ("self.settings.force_edge_pixels_to_zeros", True) in br
-        ctx.ob(rule, "reduction only under force_edge_pixels_to_zeros", ok, where=r, node=sc, construct=str(br), message="parameters are removed only when the settings ask for it")
-    ids = A.get("ids_zeros", [])
-    texts = sorted(norm_text(n.value).replace(" ", "") for n in ids)
-    ok = texts == ["np.unique(np.append(self.mapper_edge_pixel_list,self.mapper_zero_pixel_list))", "self.mapper_edge_pixel_list"]
-    if ok:
-        for n in ids:
-            br = [(norm_text(i.test), t) for i, t in wire.enclosing_branches(r, n)]
-            both = "mapper_zero_pixel_list" in norm_text(n.value)
-            ok = ok and (("self.settings.force_edge_image_pixels_to_zeros", both) in br)
-    ctx.ob(rule, "forced-zero index set", ok, where=r, node=ids[0] if ids else r.node, construct=str(texts)[:160],
-           message="forced zeros = mesh edge pixels, plus the source pixels fed by the listed image pixels exactly when force_edge_image_pixels_to_zeros")
+    PS = paths.path_summaries(r)
+    if PS is None:
+        ctx.ob(rule, "reduction", None, message="too many paths through AbstractInversion.reconstruction")
+        return
+    sizes = ("np.shape(self.curvature_reg_matrix)[0]", "self.curvature_reg_matrix.shape[0]", "len(self.data_vector)", "self.data_vector.shape[0]")
+    res = {k: [] for k in ("selector starts all-True over every parameter", "forced-zero indices cleared in the selector", "data vector reduced by the selector", "matrix reduced on both axes by the selector",
+                           "solution scattered back onto zeros through the selector", "reduction only under force_edge_pixels_to_zeros", "forced-zero index set")}
+    n_red = 0
+    for q in paths.returns(PS):
+        if q.holds("self.settings.use_positive_only_solver") is not True:
+            continue
+        force = q.holds("self.settings.force_edge_pixels_to_zeros")
+        sp = paths.store_parts(q.value)
+        if sp is None:
+            # unreduced path: allowed exactly when the setting is off
+            res["reduction only under force_edge_pixels_to_zeros"].append((force is False, q, f"unreduced solve under force_edge_pixels_to_zeros={force}"))
+            continue
+        n_red += 1
+        res["reduction only under force_edge_pixels_to_zeros"].append((force is True, q, f"reduced solve under force_edge_pixels_to_zeros={force}"))
+        base, sel, val = sp
+        selt = paths.ptext(sel)
+        okb = isinstance(base, ast.Call) and norm_text(base.func) in ("np.zeros", "numpy.zeros") and len(base.args) == 1 and paths.ptext(base.args[0]) in sizes and not base.keywords
+        okv = isinstance(val, ast.Call) and norm_text(val.func).split(".")[-1] == "reconstruction_positive_only_from"
+        res["solution scattered back onto zeros through the selector"].append((okb and okv, q, f"{paths.ptext(base)[:60]} [sel] = {paths.ptext(val)[:50]}"))
+        kw = {k: paths.ptext(v) for k, v in paths.kwargs(val).items()} if okv else {}
+        res["data vector reduced by the selector"].append((kw.get("data_vector") == f"self.data_vector[{selt}]", q, kw.get("data_vector", "missing")[:100]))
+        res["matrix reduced on both axes by the selector"].append((kw.get("curvature_reg_matrix") in _reduced_forms(selt), q, kw.get("curvature_reg_matrix", "missing")[:120]))
+        ssp = paths.store_parts(sel)
+        oks = ssp is not None and isinstance(ssp[0], ast.Call) and norm_text(ssp[0].func) in ("np.ones", "numpy.ones") and len(ssp[0].args) == 1 and paths.ptext(ssp[0].args[0]) in sizes \
+            and {k.arg: paths.ptext(k.value) for k in ssp[0].keywords} == {"dtype": "bool"}
+        res["selector starts all-True over every parameter"].append((oks, q, paths.ptext(ssp[0])[:100] if ssp else selt[:100]))
+        okz = ssp is not None and paths.ptext(ssp[2]) == "False"
+        res["forced-zero indices cleared in the selector"].append((okz, q, f"sel[{paths.ptext(ssp[1])[:60]}] = {paths.ptext(ssp[2])}" if ssp else "missing"))
+        ids = paths.ptext(ssp[1]) if ssp else ""
+        img = q.holds("self.settings.force_edge_image_pixels_to_zeros")
+        both = ("np.unique(np.append(self.mapper_edge_pixel_list,self.mapper_zero_pixel_list))", "np.unique(np.append(self.mapper_zero_pixel_list,self.mapper_edge_pixel_list))")
+        oki = (img is True and ids in both) or (img is False and ids == "self.mapper_edge_pixel_list")
+        res["forced-zero index set"].append((oki, q, f"force_edge_image_pixels_to_zeros={img}: {ids[:110]}"))
+    msgs = {"selector starts all-True over every parameter": "the selector must start as all True with one entry per parameter",
+            "forced-zero indices cleared in the selector": "exactly the forced-zero parameter indices must be cleared in the selector",
+            "data vector reduced by the selector": "D must be reduced by the selector",
+            "matrix reduced on both axes by the selector": "F+H must be reduced on rows and columns by the same selector",
+            "solution scattered back onto zeros through the selector": "the reduced solution must be written at the selected entries of an all-zero vector of full length",
+            "reduction only under force_edge_pixels_to_zeros": "parameters are removed exactly when the settings ask for it",
+            "forced-zero index set": "forced zeros = mesh edge pixels, plus the source pixels fed by the listed image pixels exactly when force_edge_image_pixels_to_zeros"}
+    for name, items in res.items():
+        badi = [x for x in items if not x[0]]
+        ok = bool(items) and not badi
+        if name != "reduction only under force_edge_pixels_to_zeros" and n_red == 0:
+            ok = False
+        ctx.ob(rule, name, ok, where=r, node=(badi[0][1].node if badi else None) or r.node, construct=(badi[0][2] if badi else (items[0][2] if items else "no reduced path")), message=msgs[name])
+    ctx.require_count(rule, "reduced return paths of reconstruction", n_red, 2)
     # local -> global index shift
     n_off = 0
     for name in ("mapper_edge_pixel_list", "mapper_zero_pixel_list"):
@@ -331,6 +340,29 @@ class St:
         return f"<w={'fresh' if self.w else 'STALE'} pos={self.pos} zero_outside={self.zero} d_valid={self.dval} U={self.U} P/list={self.sync} first_iter={self.lc0}>"
 
 
+def _nonempty_test(t: ast.AST):
+    """True if `t` tests that the warm-start index array P_initial is non-empty, False if it tests that it is empty, None if it is another test"""
+    pol = True
+    while isinstance(t, ast.UnaryOp) and isinstance(t.op, ast.Not):
+        t, pol = t.operand, not pol
+    sizes = ("P_initial.shape[0]", "len(P_initial)", "P_initial.size", "np.size(P_initial)")
+    if norm_text(t) in sizes:
+        return pol
+    if isinstance(t, ast.Compare) and len(t.ops) == 1:
+        a, op, b = norm_text(t.left), type(t.ops[0]), norm_text(t.comparators[0])
+        if a in sizes and b == "0":
+            if op in (ast.NotEq, ast.Gt):
+                return pol
+            if op in (ast.Eq, ast.LtE):
+                return not pol
+        if a == "0" and b in sizes:
+            if op in (ast.NotEq, ast.Lt):
+                return pol
+            if op in (ast.Eq, ast.GtE):
+                return not pol
+    return None
+
+
 class Machine:
     def __init__(self, ctx, f: FuncInfo, rule: str):
         self.ctx, self.f, self.rule = ctx, f, rule
@@ -366,10 +398,11 @@ class Machine:
             if t == "loop_count == 0":
                 S1 = {k for k in S if St(*k).lc0 in (True, None)}
                 S2 = {k for k in S if St(*k).lc0 in (False, None)}
-            elif t.replace(" ", "") in ("P_initial.shape[0]!=0", "len(P_initial)!=0", "len(P_initial)>0", "P_initial.shape[0]>0"):
+            elif _nonempty_test(n.test) is not None:
                 # `P[P_initial] = True` changed P exactly when P_initial is not empty
-                S1 = {(St(*k).copy(sync="stale", pos=False, dval=False) if St(*k).sync == "warm" else St(*k)).key() for k in S}
-                S2 = {(St(*k).copy(sync="ok") if St(*k).sync == "warm" else St(*k)).key() for k in S}
+                Sn = {(St(*k).copy(sync="stale", pos=False, dval=False) if St(*k).sync == "warm" else St(*k)).key() for k in S}
+                Se = {(St(*k).copy(sync="ok") if St(*k).sync == "warm" else St(*k)).key() for k in S}
+                S1, S2 = (Sn, Se) if _nonempty_test(n.test) else (Se, Sn)
             else:
                 S1 = S2 = S
             return self.flow(n.body, set(S1)) | self.flow(n.orelse, set(S2))
@@ -512,7 +545,17 @@ class Machine:
                     a = a.args[0]
                 var = norm_text(a)
                 return st.copy(U=("pending:" + var) if st.U == "fresh" else ("undef" if st.U == "undef" else "stale"), sync="append:" + var)
-            if vt == "P_number[P]" or (vt == "P_number[P_initial]" and st.sync == "stale" and not st.dval and st.U == "undef"):
+            # the indices where P is True, ascending: arange(<length of P>)[P] (through any single-assignment temporaries), or numpy's own spellings of it
+            full = norm_text(wire.inline_locals(self.f, v)).replace(" ", "").replace('"', "'")
+            if isinstance(v, ast.Subscript) and isinstance(v.value, ast.Name):
+                # `P_number = np.arange(len(P))` reads only the length of P, which element writes into P do not change: the temporary may be looked through
+                rng = [a.value for a in self.f.body_nodes() if isinstance(a, ast.Assign) and len(a.targets) == 1 and norm_text(a.targets[0]) == v.value.id]
+                if len(rng) == 1 and isinstance(rng[0], ast.Call) and norm_text(rng[0].func) in ("np.arange", "numpy.arange"):
+                    full = (norm_text(wire.inline_locals(self.f, rng[0])) + "[" + norm_text(v.slice) + "]").replace(" ", "").replace('"', "'")
+            sizes = ("len(P)", "P.shape[0]", "P.size", "np.shape(ZTZ)[0]", "ZTZ.shape[0]", "len(ZTx)", "ZTx.shape[0]")
+            listing = {f"np.arange({z}{dt})[P]" for z in sizes for dt in ("", ",dtype='int'", ",dtype=int")} | {"np.where(P)[0]", "np.flatnonzero(P)", "np.nonzero(P)[0]"}
+            listing_initial = {x.replace("[P]", "[P_initial]") for x in listing if x.endswith("[P]")}
+            if full in listing or (full in listing_initial and st.sync == "stale" and not st.dval and st.U == "undef"):
                 return st.copy(U="undef" if st.U == "undef" else "stale", sync="ok")
             if vt in ("np.array([],dtype='int')", 'np.array([],dtype="int")', "np.zeros(0,dtype=int)"):
                 if st.sync != "ok":
@@ -590,7 +633,7 @@ def rule_state(ctx, p: Project):
     q, al, d, idd, U, pin, Pst, sp, sz = one("q"), one("alpha"), one("d"), one("id_delete"), one("U"), one("P_inorder"), one("P[d<=tolerance]"), one("s_chol[P_inorder]"), one("s_chol[~P]")
     ok = q is not None and expr_poly(q.value) in (P_("P * (s_chol <= tolerance)"), P_("(s_chol <= tolerance) * P"))
     ctx.ob(rule, "fix: blocking set q = P and s_chol <= tolerance", ok, where=g, node=q or g.node, construct=norm_text(q)[:80] if q else "missing", message="the blocking set must be the passive indices whose new solution is not positive")
-    ok = al is not None and isinstance(al.value, ast.Call) and norm_text(al.value.func) in ("np.min", "numpy.min") and expr_poly(al.value.args[0]) == P_("d[q] / (d[q] - s_chol[q])")
+    ok = al is not None and isinstance(al.value, ast.Call) and norm_text(al.value.func) in ("np.min", "numpy.min") and expr_poly(wire.inline_locals(g, al.value.args[0])) == expr_poly(wire.inline_locals(g, ast.copy_location(ast.parse("d[q] / (d[q] - s_chol[q])", mode="eval").body, al.value)))
     ctx.ob(rule, "fix: step alpha = min d/(d - s) over q", ok, where=g, node=al or g.node, construct=norm_text(al)[:80] if al else "missing", message="the step length must be the largest that keeps d non-negative")
     ok = d is not None and expr_poly(d.value) == P_("d + alpha * (s_chol - d)")
     ctx.ob(rule, "fix: d moves toward s by alpha", ok, where=g, node=d or g.node, construct=norm_text(d)[:80] if d else "missing", message="d must move from d toward s_chol by alpha")
@@ -675,26 +718,35 @@ def rule_chol(ctx, p: Project, K: KEval):
     ok = ok and S0 is not None and norm_text(S0.value).replace(" ", "") == "np.insert(np.insert(U,index,0,axis=0),index,0,axis=1)"
     ctx.ob(rule, "cholinsertlast: factor bordered by a zero row and column at the end", ok, where=f, node=S0 or f.node, construct=norm_text(S0)[:90] if S0 else "missing", message="the new factor starts as U bordered by zeros at position n")
     s12 = A.get("S[:index,index]", [None])[0]
-    ok = s12 is not None and isinstance(s12.value, ast.Call) and norm_text(s12.value.func).endswith("solve_triangular")
+    # the solve may be bound to a name first (`S12 = solve(..); S[:n, n] = S12`) or in the same chained assignment
+    c = wire.see_name(f, s12.value) if s12 is not None else None
+    ok = c is not None and isinstance(c, ast.Call) and norm_text(c.func).endswith("solve_triangular")
+    names12 = set()
     if ok:
-        c = s12.value
         kw = wire.kwtext(c)
-        ok = [norm_text(a).replace(" ", "") for a in c.args] == ["U[:index,:index]", "x[:index]"] and kw.get("trans") == "1" and kw.get("lower") == "False" and "S12" in A
+        names12 = {t.id for t in s12.targets if isinstance(t, ast.Name)} | ({s12.value.id} if isinstance(s12.value, ast.Name) else set())
+        ok = [norm_text(a).replace(" ", "") for a in c.args] == ["U[:index,:index]", "x[:index]"] and kw.get("trans") == "1" and kw.get("lower") == "False"
     ctx.ob(rule, "cholinsertlast: new column solves U^T s12 = x[:n]", ok, where=f, node=s12 or f.node, construct=norm_text(s12)[:110] if s12 else "missing",
            message="the new column above the diagonal must solve U^T s12 = x[:n] (upper-triangular U, transposed solve)")
     s22 = A.get("S[index,index]", [None])[0]
-    ok = s22 is not None and isinstance(s22.value, ast.Call) and norm_text(s22.value.func) in ("math.sqrt", "np.sqrt") and expr_poly(s22.value.args[0]) in (P_("x[index] - S12.dot(S12)"), P_("x[index] - S12 @ S12"))
+    forms = [P_(t.replace("S12", nm)) for nm in sorted(names12) for t in ("x[index] - S12.dot(S12)", "x[index] - S12 @ S12", "x[index] - np.dot(S12, S12)")] + [P_("x[index] - S[:index, index].dot(S[:index, index])"), P_("x[index] - S[:index, index] @ S[:index, index]")]
+    ok = s22 is not None and isinstance(s22.value, ast.Call) and norm_text(s22.value.func) in ("math.sqrt", "np.sqrt") and expr_poly(s22.value.args[0]) in forms and (s12 is None or s22.lineno >= s12.lineno)
     ctx.ob(rule, "cholinsertlast: new diagonal entry sqrt(x[n] - s12.s12)", ok, where=f, node=s22 or f.node, construct=norm_text(s22)[:90] if s22 else "missing", message="the new diagonal entry must be sqrt(x[n] - s12 . s12)")
     rets = wire.returns_of(f)
     ctx.ob(rule, "cholinsertlast: returns the bordered factor", len(rets) == 1 and norm_text(rets[0].value) == "S", where=f, node=rets[0] if rets else f.node, construct=norm_text(rets[0].value) if rets else "?", message="returns S")
     # deletion
     f = p.func(f"{CH}:choldeleteindexes")
-    srt = [n for n in f.body_nodes() if isinstance(n, ast.Assign) and norm_text(n.targets[0]) == "indexes"]
-    ok = len(srt) == 1 and norm_text(srt[0].value).replace(" ", "") == "sorted(indexes,reverse=True)"
-    ctx.ob(rule, "choldeleteindexes: indices processed from the largest down", ok, where=f, node=srt[0] if srt else f.node, construct=norm_text(srt[0]) if srt else "missing",
-           message="deleting in descending order keeps the remaining indices valid")
     loops = [n for n in f.node.body if isinstance(n, ast.For)]
-    ok = len(loops) == 1 and norm_text(loops[0].iter) == "indexes" and isinstance(loops[0].target, ast.Name)
+    srt = [n for n in f.body_nodes() if isinstance(n, ast.Assign) and norm_text(n.targets[0]) == "indexes"]
+    it = loops[0].iter if len(loops) == 1 else None
+    if it is not None and norm_text(it) == "indexes" and len(srt) == 1 and srt[0].lineno < loops[0].lineno:
+        it = srt[0].value   # sorted into the same name before the loop
+    elif it is not None and srt:
+        it = None
+    ok = it is not None and norm_text(it).replace(" ", "") in ("sorted(indexes,reverse=True)", "sorted(indexes)[::-1]", "np.sort(indexes)[::-1]")
+    ctx.ob(rule, "choldeleteindexes: indices processed from the largest down", ok, where=f, node=srt[0] if srt else (loops[0] if loops else f.node), construct=norm_text(it) if it is not None else "missing",
+           message="deleting in descending order keeps the remaining indices valid")
+    ok = len(loops) == 1 and isinstance(loops[0].target, ast.Name)
     if ok:
         iv = loops[0].target.id
         Ls = [n for n in ast.walk(loops[0]) if isinstance(n, ast.Assign) and norm_text(n.targets[0]) == "L"]
@@ -707,13 +759,21 @@ def rule_chol(ctx, p: Project, K: KEval):
             view, vec = _call_args(ups[0], ("U", "x"))
             det = f"_cholupdate({norm_text(view)}, {norm_text(vec)})"
             ok = _index_form(view) == ("L", (("slice", P_(iv), None), ("slice", P_(iv), None))) and _index_form(vec) == ("U", (("at", P_(iv)), ("slice", P_(iv) + 1, None)))
-            br = [(norm_text(i.test).replace(" ", ""), t) for i, t in wire.enclosing_branches(f, ups[0])]
-            ok = ok and br in ([(f"{iv}==L.shape[0]", False)], [(f"{iv}!=L.shape[0]", True)], [(f"{iv}<L.shape[0]", True)])
+            conds = wire.path_conds(f, ups[0])
+            ok = ok and len(conds) == 1 and (wire.cond_holds(conds, f"{iv} != L.shape[0]") or wire.cond_holds(conds, f"{iv} < L.shape[0]"))
         ctx.ob(rule, "choldeleteindexes: trailing block updated with the deleted ROW right of the diagonal", ok, where=f, node=ups[0] if ups else loops[0], construct=det,
                message="for an upper-triangular factor, deleting index k requires S33^T S33 = U33^T U33 + u^T u with u = U[k, k+1:] (row k, right of the diagonal) applied to L[k:, k:]; "
                        "the column U[k+1:, k] is identically zero")
         us = [n for n in ast.walk(loops[0]) if isinstance(n, ast.Assign) and norm_text(n.targets[0]) == "U"]
-        ok = len(us) >= 1 and all(norm_text(n.value) == "L" for n in us) and all(n.lineno > ups[0].lineno or wire.enclosing_branches(f, n) != wire.enclosing_branches(f, ups[0]) for n in us) if ups else False
+        def must(stmts) -> bool:
+            """every path through stmts performs U = L"""
+            for st_ in stmts:
+                if isinstance(st_, ast.Assign) and norm_text(st_.targets[0]) == "U" and norm_text(st_.value) == "L":
+                    return True
+                if isinstance(st_, ast.If) and st_.orelse and must(st_.body) and must(st_.orelse):
+                    return True
+            return False
+        ok = len(us) >= 1 and all(norm_text(n.value) == "L" for n in us) and must(loops[0].body) and all(n.lineno > ups[0].lineno or wire.enclosing_branches(f, n) != wire.enclosing_branches(f, ups[0]) for n in us) if ups else False
         ctx.ob(rule, "choldeleteindexes: the reduced factor replaces U on every path", ok, where=f, node=us[0] if us else loops[0], construct=f"{len(us)} assignment(s) U = L", message="U = L after each deletion")
     else:
         ctx.ob(rule, "choldeleteindexes: loop over the indices", False, where=f, node=f.node, construct="loop not found", message="one loop over the sorted indices is expected")
